@@ -107,6 +107,8 @@ class Gen:
         r = self.rng
         if nrows is None:
             nrows = r.choice([0, 1, 2, 3, 5, 8, self.max_rows])
+            if self.profile == "tall":
+                nrows = r.choice([101, 128])      # beyond polars' schema inference window; long null prefixes below
         ncols = ncols or r.randint(2, 5)
         cols = [dict(name="id", dtype="int64", vals=self.shuffled(list(range(1, nrows + 1))))]
         meta = [("id", "int", False, True)]
@@ -119,6 +121,11 @@ class Gen:
             used.add(nm)
             nd = r.choice([0.0, 0.0, 0.3, 0.3, 1.0 if r.random() < 0.15 else 0.3])
             vals = self.gen_values(cls, nrows, nd, dup_heavy=r.random() < 0.6)
+            if self.profile == "tall" and r.random() < 0.6:
+                k = min(r.choice([100, 105, nrows - 1]), nrows)
+                vals = [None] * k + vals[k:]
+                nd = max(nd, 0.3)
+                self.features.add("long_null_prefix")
             dtype = {"int": "int64", "float": "float64", "bool": "bool", "string": "string"}[cls]
             cols.append(dict(name=nm, dtype=dtype, vals=vals))
             meta.append((nm, cls, nd > 0, False))
@@ -903,6 +910,7 @@ PROFILES = {
     "agg": dict(mutate=3, mutate_window=2, filter=3, select=1, rename=1, arrange=3, slice=2, group_by=5, ungroup=1, summarize=6, alias=2),
     "window": dict(mutate=2, mutate_window=6, filter=3, select=2, rename=1, arrange=3, slice=2, group_by=3, ungroup=2, alias=2),
     "join": dict(mutate=3, filter=3, select=2, rename=2, arrange=1, join=6, alias=2, union=2, mutate_window=1, summarize=1, group_by=1),
+    "tall": dict(mutate=5, mutate_window=2, filter=3, select=1, rename=1, arrange=2, slice=1, group_by=2, summarize=2, alias=1, join=1),
     "slices": dict(arrange=3, slice=7, filter=2, mutate=2, select=1, rename=1),
     "union": dict(mutate=3, filter=3, select=2, drop=1, rename=2, arrange=1, slice=1, union=6, alias=1),
     "subquery": dict(mutate=2, mutate_window=4, filter=4, arrange=2, slice=4, group_by=3, summarize=4, alias=4, join=2, union=1, ungroup=1),
